@@ -595,7 +595,58 @@ Proof.
     unfold flag. cbn [app triples_ok length Nat.eqb].
     rewrite !bytes_eqb_refl.
     destruct (length d <=? 30)%nat; reflexivity.
+  - (* Verify: the model answers with the oracle entry vo, which the guard equates with honest *)
+    unfold pk_try_from_slice, pk_from_bytes, flag.
+    destruct honest, vo; cbn [Bool.eqb negb orb andb]; try reflexivity;
+      destruct (length k =? 32)%nat; cbn [negb andb bind]; try reflexivity;
+      destruct (isp k); reflexivity.
 Qed.
+
+(* ---- sign / verify: what the monitor clause says, and that it can fail ---- *)
+
+(* For an OpVerify case the harness can produce (oracle entry = what the property demands;
+   an honest case has a 32-byte curve point as key) the monitor holds of an observed output
+   exactly when: honest -> the implementation answered "accepted"; not honest -> it answered
+   "rejected" or refused the key. *)
+Lemma monitor_verify_spec k m sg honest pts urls (o : output) :
+  (honest = true -> length k = 32%nat /\ is_point_of pts k = true) ->
+  monitor (OpVerify k m sg honest honest, pts, urls) o = true <->
+  (if honest then o = Ok (OBytes [Ok [1]])
+   else o = Ok (OBytes [Ok [0]]) \/ exists e, o = Err e).
+Proof.
+  intros H. unfold monitor. rewrite Bool.eqb_reflx. cbn [negb orb].
+  destruct honest.
+  - destruct (H eq_refl) as (L & P). rewrite L, P. cbn [Nat.eqb andb negb].
+    destruct o as [[l|e l]| |];
+      [destruct l as [|[b| |] [|? ?]]; [|destruct b as [|f [|? ?]]|destruct b as [|? [|? ?]]|..]|..];
+      cbn; try (split; [discriminate|intros X; discriminate X]).
+    split; [intros E; apply N.eqb_eq in E; now subst|intros [= ->]; reflexivity].
+  - cbn [andb negb].
+    destruct o as [[l|e l]| |];
+      [destruct l as [|[b| |] [|? ?]]; [|destruct b as [|f [|? ?]]|destruct b as [|? [|? ?]]|..]|..];
+      cbn; try (split; [discriminate|intros [X|(? & X)]; discriminate X]).
+    + split; [intros E; apply N.eqb_eq in E; subst; now left|intros [[= ->]|(? & [=])]; reflexivity].
+    + split; [intros _; right; eauto|reflexivity].
+Qed.
+
+(* the identity point as key, R = identity, S = 0, any message: a crafted signature *)
+Definition weak_key : bytes := 1 :: repeat 0 31.
+Definition weak_sig : bytes := 1 :: repeat 0 63.
+Definition verify_weak (m : bytes) : input :=
+  (OpVerify weak_key m weak_sig false false, [(weak_key, true)], []).
+
+(* non-vacuity / sensitivity: the model (strict verification) rejects it, the monitor accepts
+   "rejected" and fails on "accepted" (what non-strict verification answers), for any message *)
+Example verify_weak_ex m :
+  known (verify_weak m) = 0 /\ model (verify_weak m) = Ok (OBytes [Ok [0]]) /\
+  monitor (verify_weak m) (Ok (OBytes [Ok [0]])) = true /\
+  monitor (verify_weak m) (Ok (OBytes [Ok [1]])) = false.
+Proof. repeat split. Qed.
+
+Example verify_honest_ex :
+  let i := (OpVerify (repeat 0 32) [1] (repeat 7 64) true true, [(repeat 0 32, true)], []) in
+  monitor i (model i) = true /\ monitor i (Ok (OBytes [Ok [0]])) = false /\ monitor i (Err 4) = false.
+Proof. vm_compute. auto. Qed.
 
 (* ------------------------------------------------------------------ *)
 (** * EndpointAddr: the SocketAddrV6 flow-info / scope-id finding, and witnesses *)
